@@ -899,6 +899,30 @@ struct DaemonOpts {
     /// Some(n): the first n runs fail because the router sends half a reply and then ends the TLS
     /// session in an orderly way (instead of dropping the connection right after the hello)
     truncated_reply_then_close: Option<usize>,
+    /// the router is fine in every run, but the IRRd's port refuses connections for the whole
+    /// scenario (bound, never listening): every run fails at "connect to the IRRd"
+    irr_refuses_connections: bool,
+}
+
+/// A loopback TCP port that refuses connections and cannot be taken by anybody else meanwhile:
+/// a socket that is bound but never listens. Returns (fd, port).
+fn refusing_port() -> Result<(i32, u16), String> {
+    unsafe {
+        let fd = libc::socket(libc::AF_INET, libc::SOCK_STREAM | libc::SOCK_CLOEXEC, 0);
+        if fd < 0 {
+            return Err("socket".into());
+        }
+        let mut a: libc::sockaddr_in = std::mem::zeroed();
+        a.sin_family = libc::AF_INET as libc::sa_family_t;
+        a.sin_port = 0;
+        a.sin_addr.s_addr = u32::from_ne_bytes([127, 0, 0, 1]);
+        let mut len = std::mem::size_of::<libc::sockaddr_in>() as libc::socklen_t;
+        if libc::bind(fd, &a as *const _ as *const libc::sockaddr, len) != 0 || libc::getsockname(fd, &mut a as *mut _ as *mut libc::sockaddr, &mut len) != 0 {
+            libc::close(fd);
+            return Err("bind".into());
+        }
+        Ok((fd, u16::from_be(a.sin_port)))
+    }
 }
 
 fn run_daemon(k: f64, period: u64, outcomes: &[bool], signals: &[(f64, i32)], end_at: f64, slow: &[(usize, f64)], opts: &DaemonOpts) -> Result<DaemonObs, String> {
@@ -928,11 +952,16 @@ fn run_daemon(k: f64, period: u64, outcomes: &[bool], signals: &[(f64, i32)], en
         script.faults = vec![("get-config".into(), 0, e2e::FaultKind::Truncated)];
         script.faults_only_session = Some(nt);
         script.running = e2e::running_config(&[]);
+    } else if opts.irr_refuses_connections {
+        for f in fail.iter_mut() {
+            *f = false;
+        }
     } else {
         script.running = e2e::running_config(&[]);
     }
     script.fail_connections = fail;
-    let irr_real_port = irr.port();
+    let refusing = if opts.irr_refuses_connections { Some(refusing_port()?) } else { None };
+    let irr_real_port = refusing.map_or(irr.port(), |r| r.1);
     let silent_release = opts.leftover_evaluation_on_silent_irr;
     let res = rt.block_on(async {
         let j = FakeJunos::start(script, Config::default()).await.map_err(|e| format!("junos: {e}"))?;
@@ -1063,6 +1092,11 @@ fn run_daemon(k: f64, period: u64, outcomes: &[bool], signals: &[(f64, i32)], en
         Ok(DaemonObs { accepts, closes, logged_delays: logged, exit, exit_at, signals: sent, stderr, overshoot_ms: overshoot, silent_irr_connections: silent })
     });
     irr.stop();
+    if let Some((fd, _)) = refusing {
+        unsafe {
+            libc::close(fd);
+        }
+    }
     res
 }
 
@@ -1113,6 +1147,9 @@ pub fn run_c19(cfg: &Cfg) -> i32 {
         Sc { period: 300, outcomes: vec![false, false, false, false, false, false, true], signals: vec![], end: 60.0 + 120.0 + 240.0 + 300.0 + 300.0 + 300.0 + 120.0,
             name: "p300:FFFFFF(each leaving its evaluation behind on a silent IRRd until 1250s)S", slow: vec![],
             opts: DaemonOpts { workers: None, leftover_evaluation_on_silent_irr: Some((6, 1250.0)), ..DaemonOpts::default() } },
+        // the router is fine, the IRRd refuses connections: that is a failed run like any other
+        Sc { period: 300, outcomes: vec![false, false, false], signals: vec![], end: 60.0 + 120.0 + 40.0, name: "p300:FFF(router fine, the IRRd refuses connections)", slow: vec![],
+            opts: DaemonOpts { irr_refuses_connections: true, ..DaemonOpts::default() } },
         Sc { period: 600, outcomes: vec![false, false, true], signals: vec![(60.0 + 50.0, libc::SIGHUP), (60.0 + 50.0 + 200.0, libc::SIGTERM)], end: 600.0, name: "p600:FF+SIGHUP@110(in 2nd backoff)S+SIGTERM@310(in period)", slow: vec![], opts: DaemonOpts::default() },
     ];
     if cfg.thorough() {
@@ -1169,6 +1206,9 @@ pub fn run_c19(cfg: &Cfg) -> i32 {
     for (i, k, res, reruns) in observed {
         let sc = &scs[i];
         rep.count_n("reruns_because_of_timer_jitter", reruns);
+        if reruns > 0 {
+            rep.count_n(&format!("reruns_because_of_timer_jitter:{}", sc.name), reruns);
+        }
         let obs = match res {
             Ok(o) => Some(o),
             Err(e) => {
